@@ -344,7 +344,14 @@ class DegEval:
                 return D(0)
             self.report("div", fn, "%s applied to a position-dependent value (degree %s): %s" % (name, [x.d for x in ds], show(t, maxd=4)))
             return D(T)
-        if name in ("saturating_as", "into", "from", "clone", "try_into", "try_from", "unwrap_or", "unwrap", "copied", "cloned", "as_ref", "borrow") and args:
+        if name in ("unwrap_or", "unwrap", "expect", "unwrap_or_default", "unwrap_unchecked") and args:
+            a = args[0]
+            if isinstance(a, S) and a.ty in ("Option", "Some"):
+                a = a.fields.get(0, U("payload"))      # the payload, not the Option around it
+            if name == "unwrap_or" and len(args) == 2:
+                a = jd(a, args[1])
+            return a
+        if name in ("saturating_as", "into", "from", "clone", "try_into", "try_from", "copied", "cloned", "as_ref", "borrow") and args:
             return args[0]
         if name in ("is_some", "is_none", "eq", "ne", "contains") and args:
             return D(0)
